@@ -57,36 +57,37 @@ async fn tap(mut from: tokio::io::ReadHalf<DuplexStream>, mut to: tokio::io::Wri
 
 fn snd_mode(c: &J) -> SenderSettleMode { match c["snd"].as_i64().unwrap_or(2) { 0 => SenderSettleMode::Unsettled, 1 => SenderSettleMode::Settled, _ => SenderSettleMode::Mixed } }
 fn rcv_mode(c: &J) -> ReceiverSettleMode { if c["rcv"].as_i64().unwrap_or(0) == 1 { ReceiverSettleMode::Second } else { ReceiverSettleMode::First } }
-fn msgs(c: &J) -> Vec<(u32, usize, String)> {
-    c["msgs"].as_array().map(|a| a.iter().enumerate().map(|(i, m)| (i as u32 + 1, m["len"].as_u64().unwrap_or(0) as usize, m["shape"].as_str().unwrap_or("data").to_string())).collect()).unwrap_or_default()
+/// messages of link `ln`: ids 1000 * ln + 1 ..
+fn msgs(c: &J, ln: u32) -> Vec<(u32, usize, String)> {
+    c["msgs"].as_array().map(|a| a.iter().enumerate().map(|(i, m)| (1000 * ln + i as u32 + 1, m["len"].as_u64().unwrap_or(0) as usize, m["shape"].as_str().unwrap_or("data").to_string())).collect()).unwrap_or_default()
 }
 
-async fn send_all(mut s: Sender, c: J, log: Log) -> Sender {
+async fn send_all(mut s: Sender, c: J, log: Log, ln: u32) -> Sender {
     let batch = c["batch"].as_bool().unwrap_or(false);
     let mut futs = vec![];
-    for (m, len, shape) in msgs(&c) {
-        emit(&log, json!({"ev": "Submit", "m": m, "len": len}));
+    for (m, len, shape) in msgs(&c, ln) {
+        emit(&log, json!({"ev": "Submit", "ln": ln, "m": m, "len": len}));
         let sendable = Sendable::builder().message(build_message(m, len, &shape)).build();
         if batch {
-            match s.send_batchable(sendable).await { Ok(f) => futs.push((m, f)), Err(e) => emit(&log, json!({"ev": "SendRet", "m": m, "ok": false, "outcome": format!("{e:?}").chars().take(120).collect::<String>()})) }
+            match s.send_batchable(sendable).await { Ok(f) => futs.push((m, f)), Err(e) => emit(&log, json!({"ev": "SendRet", "ln": ln, "m": m, "ok": false, "outcome": format!("{e:?}").chars().take(120).collect::<String>()})) }
         } else {
             match s.send(sendable).await {
-                Ok(o) => emit(&log, json!({"ev": "SendRet", "m": m, "ok": true, "outcome": crate::ep::class_of(&format!("{o:?}")).to_lowercase()})),
-                Err(e) => emit(&log, json!({"ev": "SendRet", "m": m, "ok": false, "outcome": format!("{e:?}").chars().take(120).collect::<String>()})),
+                Ok(o) => emit(&log, json!({"ev": "SendRet", "ln": ln, "m": m, "ok": true, "outcome": crate::ep::class_of(&format!("{o:?}")).to_lowercase()})),
+                Err(e) => emit(&log, json!({"ev": "SendRet", "ln": ln, "m": m, "ok": false, "outcome": format!("{e:?}").chars().take(120).collect::<String>()})),
             }
         }
     }
     for (m, f) in futs {
         match f.await {
-            Ok(o) => emit(&log, json!({"ev": "SendRet", "m": m, "ok": true, "outcome": crate::ep::class_of(&format!("{o:?}")).to_lowercase()})),
-            Err(e) => emit(&log, json!({"ev": "SendRet", "m": m, "ok": false, "outcome": format!("{e:?}").chars().take(120).collect::<String>()})),
+            Ok(o) => emit(&log, json!({"ev": "SendRet", "ln": ln, "m": m, "ok": true, "outcome": crate::ep::class_of(&format!("{o:?}")).to_lowercase()})),
+            Err(e) => emit(&log, json!({"ev": "SendRet", "ln": ln, "m": m, "ok": false, "outcome": format!("{e:?}").chars().take(120).collect::<String>()})),
         }
     }
     s
 }
 
-async fn recv_all(mut r: Receiver, c: J, log: Log) -> Receiver {
-    let all = msgs(&c);
+async fn recv_all(mut r: Receiver, c: J, log: Log, ln: u32) -> Receiver {
+    let all = msgs(&c, ln);
     let credit = c["credit"].as_i64().unwrap_or(10);
     let auto = c["auto"].as_bool().unwrap_or(false);
     for _ in 0..all.len() {
@@ -97,13 +98,22 @@ async fn recv_all(mut r: Receiver, c: J, log: Log) -> Receiver {
                 let m = match msg.properties.as_ref().and_then(|p| p.message_id.as_ref()) { Some(fe2o3_amqp_types::messaging::MessageId::Ulong(u)) => *u as i64, _ => -1 };
                 let got = serde_amqp::to_vec(&Serializable(msg)).unwrap_or_default();
                 let want = all.iter().find(|x| x.0 as i64 == m).map(|x| encode_message(&build_message(x.0, x.1, &x.2))).unwrap_or_default();
-                emit(&log, json!({"ev": "Recv", "m": m, "intact": got == want, "len": got.len()}));
+                // a message of another link has no expected encoding here: it shows as not intact and as a routing failure in the trace
+                emit(&log, json!({"ev": "Recv", "ln": ln, "m": m, "intact": got == want, "len": got.len()}));
                 if !auto { let _ = r.accept(&d).await; }
             }
-            Err(e) => { emit(&log, json!({"ev": "RecvErr", "err": format!("{e:?}").chars().take(120).collect::<String>()})); break; }
+            Err(e) => { emit(&log, json!({"ev": "RecvErr", "ln": ln, "err": format!("{e:?}").chars().take(120).collect::<String>()})); break; }
         }
     }
     r
+}
+
+/// waits until `want` rows of kind `ev` (or an error row) are in the log
+async fn wait_done(log: &Log, ev: &str, want: usize) {
+    loop {
+        { let g = log.lock().unwrap(); let n = g.iter().filter(|r| r["ev"] == ev).count(); let bad = g.iter().any(|r| r["ev"] == "RecvErr" || r["ev"] == "SetupErr"); if n >= want || bad { return; } }
+        tokio::time::sleep(Duration::from_millis(5)).await;
+    }
 }
 
 async fn run_case(c: J, log: Log) {
@@ -126,43 +136,70 @@ async fn run_case(c: J, log: Log) {
     let (cdone_tx, cdone_rx) = tokio::sync::oneshot::channel::<()>();
     let (ldone_tx, ldone_rx) = tokio::sync::oneshot::channel::<()>();
 
+    let nlinks = c["links"].as_u64().unwrap_or(1).max(1) as u32;
+    let nsess = c["sessions"].as_u64().unwrap_or(1).max(1) as u32;
     let client = tokio::spawn(async move {
         let c = cl;
         let mut conn = match Connection::builder().container_id("c").max_frame_size(c["mfs_c"].as_u64().unwrap_or(4096) as u32).buffer_size(buf).open_with_stream(ca).await {
             Ok(x) => x, Err(e) => { emit(&log_c, json!({"ev": "SetupErr", "who": "client-open", "err": format!("{e:?}")})); return; } };
-        let mut sess = match Session::builder().incoming_window(c["iw_c"].as_u64().unwrap_or(2048) as u32).outgoing_window(c["ow_c"].as_u64().unwrap_or(2048) as u32).buffer_size(buf).begin(&mut conn).await {
-            Ok(x) => x, Err(e) => { emit(&log_c, json!({"ev": "SetupErr", "who": "client-begin", "err": format!("{e:?}")})); return; } };
-        if c2l {
-            match Sender::builder().name("L").target("q").sender_settle_mode(snd_mode(&c)).receiver_settle_mode(rcv_mode(&c)).attach(&mut sess).await {
-                Ok(s) => { let _s = send_all(s, c.clone(), log_c.clone()).await; let _ = cdone_tx.send(()); let _ = ldone_rx.await; }
-                Err(e) => emit(&log_c, json!({"ev": "SetupErr", "who": "client-attach", "err": format!("{e:?}")})),
-            }
-        } else {
-            match Receiver::builder().name("L").source("q").sender_settle_mode(snd_mode(&c)).receiver_settle_mode(rcv_mode(&c)).auto_accept(auto)
-                .credit_mode(if credit > 0 { CreditMode::Auto(credit as u32) } else { CreditMode::Manual }).attach(&mut sess).await {
-                Ok(r) => { let _r = recv_all(r, c.clone(), log_c.clone()).await; let _ = cdone_tx.send(()); let _ = ldone_rx.await; }
-                Err(e) => emit(&log_c, json!({"ev": "SetupErr", "who": "client-attach", "err": format!("{e:?}")})),
+        let mut sessions = vec![];
+        for _ in 0..nsess {
+            match Session::builder().incoming_window(c["iw_c"].as_u64().unwrap_or(2048) as u32).outgoing_window(c["ow_c"].as_u64().unwrap_or(2048) as u32).buffer_size(buf).begin(&mut conn).await {
+                Ok(x) => sessions.push(x), Err(e) => { emit(&log_c, json!({"ev": "SetupErr", "who": "client-begin", "err": format!("{e:?}")})); return; } }
+        }
+        // link i lives on session i mod nsess; every link runs its own application task
+        let mut apps = vec![];
+        for ln in 0..nlinks {
+            let sess = &mut sessions[(ln % nsess) as usize];
+            let name = format!("L{ln}");
+            if c2l {
+                match Sender::builder().name(name).target("q").sender_settle_mode(snd_mode(&c)).receiver_settle_mode(rcv_mode(&c)).attach(sess).await {
+                    Ok(s) => { let (c2, l2) = (c.clone(), log_c.clone()); apps.push(tokio::spawn(async move { let _s = send_all(s, c2, l2, ln).await; let () = std::future::pending().await; })); }
+                    Err(e) => { emit(&log_c, json!({"ev": "SetupErr", "who": "client-attach", "err": format!("{e:?}")})); return; }
+                }
+            } else {
+                match Receiver::builder().name(name).source("q").sender_settle_mode(snd_mode(&c)).receiver_settle_mode(rcv_mode(&c)).auto_accept(auto)
+                    .credit_mode(if credit > 0 { CreditMode::Auto(credit as u32) } else { CreditMode::Manual }).attach(sess).await {
+                    Ok(r) => { let (c2, l2) = (c.clone(), log_c.clone()); apps.push(tokio::spawn(async move { let _r = recv_all(r, c2, l2, ln).await; let () = std::future::pending().await; })); }
+                    Err(e) => { emit(&log_c, json!({"ev": "SetupErr", "who": "client-attach", "err": format!("{e:?}")})); return; }
+                }
             }
         }
-        let _keep = (conn, sess);
+        // the applications never return their links (they stay attached); completion is read off the log
+        let want = nlinks as usize * c["msgs"].as_array().map(|a| a.len()).unwrap_or(0);
+        wait_done(&log_c, if c2l { "SendRet" } else { "Recv" }, want).await;
+        let _ = cdone_tx.send(()); let _ = ldone_rx.await;
+        for a in apps { a.abort(); }
+        let _keep = (conn, sessions);
     });
     let listener = tokio::spawn(async move {
         let c = ll;
         let acc = ConnectionAcceptor::builder().container_id("l").max_frame_size(c["mfs_l"].as_u64().unwrap_or(4096) as u32).buffer_size(buf).build();
         let mut conn = match acc.accept(lb).await { Ok(x) => x, Err(e) => { emit(&log_l, json!({"ev": "SetupErr", "who": "listener-accept", "err": format!("{e:?}")})); return; } };
         let sacc = SessionAcceptor::builder().incoming_window(c["iw_l"].as_u64().unwrap_or(2048) as u32).outgoing_window(c["ow_l"].as_u64().unwrap_or(2048) as u32).buffer_size(buf).build();
-        let mut sess = match sacc.accept(&mut conn).await { Ok(x) => x, Err(e) => { emit(&log_l, json!({"ev": "SetupErr", "who": "listener-session", "err": format!("{e:?}")})); return; } };
-        match LinkAcceptor::builder().build().accept(&mut sess).await {
-            Ok(LinkEndpoint::Receiver(mut r)) => {
-                if credit > 0 { r.set_credit_mode(CreditMode::Auto(credit as u32)); let _ = r.set_credit(credit as u32).await; } else { r.set_credit_mode(CreditMode::Manual); let _ = r.set_credit(0).await; }
-                r.set_auto_accept(auto);
-                let _r = recv_all(r, c.clone(), log_l.clone()).await;
-                let _ = ldone_tx.send(()); let _ = cdone_rx.await;
-            }
-            Ok(LinkEndpoint::Sender(s)) => { let _s = send_all(s, c.clone(), log_l.clone()).await; let _ = ldone_tx.send(()); let _ = cdone_rx.await; }
-            Err(e) => emit(&log_l, json!({"ev": "SetupErr", "who": "listener-link", "err": format!("{e:?}")})),
+        let mut sessions = vec![];
+        for _ in 0..nsess {
+            match sacc.accept(&mut conn).await { Ok(x) => sessions.push(x), Err(e) => { emit(&log_l, json!({"ev": "SetupErr", "who": "listener-session", "err": format!("{e:?}")})); return; } }
         }
-        let _keep = (conn, sess);
+        let mut apps = vec![];
+        for ln in 0..nlinks {
+            let sess = &mut sessions[(ln % nsess) as usize];
+            match LinkAcceptor::builder().build().accept(sess).await {
+                Ok(LinkEndpoint::Receiver(mut r)) => {
+                    if credit > 0 { r.set_credit_mode(CreditMode::Auto(credit as u32)); let _ = r.set_credit(credit as u32).await; } else { r.set_credit_mode(CreditMode::Manual); let _ = r.set_credit(0).await; }
+                    r.set_auto_accept(auto);
+                    let (c2, l2) = (c.clone(), log_l.clone());
+                    apps.push(tokio::spawn(async move { let _r = recv_all(r, c2, l2, ln).await; let () = std::future::pending().await; }));
+                }
+                Ok(LinkEndpoint::Sender(s)) => { let (c2, l2) = (c.clone(), log_l.clone()); apps.push(tokio::spawn(async move { let _s = send_all(s, c2, l2, ln).await; let () = std::future::pending().await; })); }
+                Err(e) => { emit(&log_l, json!({"ev": "SetupErr", "who": "listener-link", "err": format!("{e:?}")})); return; }
+            }
+        }
+        let want = nlinks as usize * c["msgs"].as_array().map(|a| a.len()).unwrap_or(0);
+        wait_done(&log_l, if c2l { "Recv" } else { "SendRet" }, want).await;
+        let _ = ldone_tx.send(()); let _ = cdone_rx.await;
+        for a in apps { a.abort(); }
+        let _keep = (conn, sessions);
     });
     let limit = if c["mt"].as_bool().unwrap_or(false) { Duration::from_secs(30) } else { Duration::from_secs(3600) };
     let all = async { let _ = client.await; let _ = listener.await; };
@@ -179,7 +216,7 @@ pub fn main(args: &[String]) -> Result<(), String> {
     for (k, line) in inp.lines().filter(|l| !l.trim().is_empty()).enumerate() {
         let c: J = serde_json::from_str(line).map_err(|e| e.to_string())?;
         let log: Log = Arc::new(Mutex::new(vec![]));
-        emit(&log, json!({"ev": "Init", "n": c["msgs"].as_array().map(|a| a.len()).unwrap_or(0), "snd": c["snd"], "rcv": c["rcv"], "batch": c["batch"]}));
+        emit(&log, json!({"ev": "Init", "n": c["msgs"].as_array().map(|a| a.len()).unwrap_or(0), "links": c["links"].as_u64().unwrap_or(1).max(1), "snd": c["snd"], "rcv": c["rcv"], "batch": c["batch"]}));
         let mt = c["mt"].as_bool().unwrap_or(false);
         let rt = if mt { tokio::runtime::Builder::new_multi_thread().worker_threads(4).enable_all().build() }
                  else { tokio::runtime::Builder::new_current_thread().enable_all().start_paused(true).build() }.map_err(|e| e.to_string())?;
